@@ -27,7 +27,13 @@ func (cb *CBLC) parseIndexSubTables(src []byte) error {
 		sizeSubtables := make([]BitmapSubtable, len(subtables.Subtables))
 		for j, subtable := range subtables.Subtables {
 			numGlyphs := int(subtable.LastGlyph) - int(subtable.FirstGlyph) + 1
+			if numGlyphs <= 0 {
+				return fmt.Errorf("invalid glyph range in bitmap index subtable: %d > %d", subtable.FirstGlyph, subtable.LastGlyph)
+			}
 			subtableStart := start + int(subtable.additionalOffsetToIndexSubtable)
+			if L := len(src); L < subtableStart {
+				return fmt.Errorf("EOF: expected length: %d, got %d", subtableStart, L)
+			}
 
 			sizeSubtables[j].FirstGlyph = subtable.FirstGlyph
 			sizeSubtables[j].LastGlyph = subtable.LastGlyph
